@@ -642,6 +642,37 @@ pub fn post_step(w: &mut World, s: &mut Session, ctx: &PostCtx) -> Result<(), Vi
         offsets_check(w, ctx)?;
     }
     let after = w.parsed()?;
+    if o.free_count && o.fault_resilient {
+        // C05, "removing gives back all clusters", across one storage error: if the failed remove() had not touched the
+        // table yet, the repeated call finds everything as it was and must release the whole chain
+        if let Some((chain, what)) = w.pending_reclaim.take() {
+            if matches!(ctx.op, Op::Remove { .. }) && !w.step_injected && matches!(ctx.out.res, Ok(()) | Err(E::NotFound)) {
+                let d = w.disk.borrow();
+                let still: Vec<u32> = chain.iter().copied().filter(|c| refdec::fat_val(&d.store, &w.geo, *c) != 0).collect();
+                if !still.is_empty() {
+                    return Err(viol(
+                        "C05",
+                        "clusters-not-reclaimed-after-failed-remove",
+                        format!("remove of {} failed with a storage error before any table entry was changed; the repeated call returned {:?} and {} of its {} cluster(s) are still allocated (first {:?})", what, ctx.out.res, still.len(), chain.len(), &still[..still.len().min(4)]),
+                        w.step_no,
+                    ));
+                }
+                w.stats.reclaim_after_retry_checked += 1;
+            }
+        }
+        if w.step_injected && w.stats.hard_faults == 1 {
+            if let (Op::Remove { .. }, Some(vp), Some(bs)) = (ctx.op, ctx.out.victim_path.as_ref(), ctx.before_store.as_ref()) {
+                if let Some(oi) = ctx.before.find(vp) {
+                    let g = &w.geo;
+                    let (lo, hi) = (g.fat_off, g.fat_off + u64::from(g.nfats) * g.fat_bytes);
+                    let table_touched = w.disk.borrow().store.diff(bs).iter().any(|(off, len)| *off < hi && off + len > lo);
+                    if !table_touched && !ctx.before.objs[oi].chain.is_empty() {
+                        w.pending_reclaim = Some((ctx.before.objs[oi].chain.clone(), refdec::path_str(vp)));
+                    }
+                }
+            }
+        }
+    }
     if w.faulted {
         if o.fsck {
             fsck_check(w, &after, &ctx.flux)?;
